@@ -39,6 +39,8 @@ mod rtt;
 mod st_cred_mech;
 mod timeout;
 
+#[cfg(rustun_verif)]
+pub use crate::client::{VerifMech, VerifSnapshot};
 pub use crate::client::RttConfig;
 pub use crate::client::StunClient;
 pub use crate::client::StunClienteBuilder;
